@@ -141,6 +141,9 @@ class Registry:
         self.sym_methods = {}     # Sym subclass -> method model(interp, obj, name, args, kwargs)
         self.sym_attrs = {}       # Sym subclass -> attribute model(interp, obj, name)
         self.sym_binops = []      # models for operators on custom symbolic objects
+        self.sym_getitem = {}
+        self.sym_int = {}
+        self.sym_truth = {}
         self.ctor_models = {}     # class -> assumed constructor model(interp, args, kwargs)
 
     def model(self, f):
